@@ -478,6 +478,10 @@ func splatReader(a *anchors, r *sx.Rep, fn *ssa.Function) *recSide {
 				r.Violate("LAY-2", fkey, a.p.Pos(p), "the decoded value is read from a buffer other than the one io.ReadFull fills")
 				return side
 			}
+			if ch.src.at != nil && ch.src.at.Parent() == fn && !ssau.Before(rf.Call, ch.src.at) {
+				r.Violate("LAY-2", fkey, a.p.Pos(p), "the field is decoded before io.ReadFull has filled the record buffer in this iteration (it sees the previous record)")
+				return side
+			}
 			off, isC := ch.src.off.IsConst()
 			if !isC {
 				r.Undecide("LAY-1", fkey, a.p.Pos(p), "non-constant offset "+ch.src.off.String()+" into the record")
